@@ -1,4 +1,5 @@
 import RLV.Model.Core
+import RLV.Model.MenuSel
 namespace RLV.Menu
 open RLV.Core (G Panic)
 
@@ -33,8 +34,12 @@ def findFirst (g : Grp) (x y : Int) : Nat → G (Grp × Bool × Bool)
       findFirst g x y fuel
     else pure (g, false, false)
 
-/-- moveSelector(x, y) → (group, done, next) -/
-def moveSelector (g : Grp) (x y : Int) : G (Grp × Bool × Bool) := do
+/-- the selector state of a plain group, as `Menu2.Sel` (the shape the C15 theorems are about) -/
+def toSel (g : Grp) : Menu2.Sel :=
+  { rows := fun y => (g.rows.getD y []).length, R := g.rows.length, maxX := g.maxX, x := g.posX, y := g.posY }
+
+/-- moveSelector(x, y) → (group, done, next), aliased groups -/
+def moveSelectorAliased (g : Grp) (x y : Int) : G (Grp × Bool × Bool) := do
   let mut g := g
   if g.posX = -1 ∧ g.posY = -1 then
     if x ≠ 0 then g := { g with posY := g.posY + 1 } else g := { g with posX := g.posX + 1 }
@@ -54,11 +59,16 @@ def moveSelector (g : Grp) (x y : Int) : G (Grp × Bool × Bool) := do
     else return (g, true, true)
   let rl ← rowLen g g.posY
   if g.posX > rl - 1 then
-    if g.aliased then return ← findFirst g x y (g.rows.length * (g.ncols + 2) + 4)
-    g := { g with posX := 0 }
-    if g.posY < (g.maxY : Int) - 1 then g := { g with posY := g.posY + 1 }
-    else return (g, true, true)
+    return ← findFirst g x y (g.rows.length * (g.ncols + 2) + 4)
   return (g, false, false)
+
+/-- moveSelector(x, y) → (group, done, next): plain groups run the stage-wise `Menu2.move`
+(`maxY = len(rows)` in every group the engine builds) -/
+def moveSelector (g : Grp) (x y : Int) : G (Grp × Bool × Bool) :=
+  if g.aliased then moveSelectorAliased g x y
+  else do
+    let r ← Menu2.move (toSel g) x y
+    pure ({ g with posX := r.1.x, posY := r.1.y }, r.2.1, r.2.2)
 
 def firstCell (g : Grp) : Grp := { g with posX := 0, posY := 0 }
 
